@@ -48,7 +48,7 @@ type I interface {
 type NotIface struct{ v int }
 
 func (n *NotIface) Get(a int, s string) int { return 0 }
-func (n *NotIface) Put(x int)                 {}
+func (n *NotIface) Put(x int)               {}
 
 var iv I
 var errT = reflect.TypeOf((*error)(nil)).Elem()
@@ -129,7 +129,7 @@ type target struct {
 	fn      interface{}
 	handle  func(b *mocker.Builder) mocker.ExportedMocker
 	cbType  reflect.Type
-	state   func() string // observable behaviour fingerprint
+	state   func() string           // observable behaviour fingerprint
 	prepare func(b *mocker.Builder) // puts the target into "already mocked"
 	isIface bool
 }
@@ -184,7 +184,9 @@ func TestC13(t *testing.T) {
 			prepare: func(b *mocker.Builder) { b.Func(FVI).Return(55, nil) }},
 		{name: "T.M", fn: (*T).M, handle: func(b *mocker.Builder) mocker.ExportedMocker { return b.Struct(&T{}).Method("M") }, cbType: reflect.TypeOf((*T).M),
 			state: func() string { return fp(func() interface{} { return (&T{}).M(1, "s") }) }, prepare: func(b *mocker.Builder) { b.Struct(&T{}).Method("M").Return(55) }},
-		{name: "foo", fn: foo, handle: func(b *mocker.Builder) mocker.ExportedMocker { return b.ExportFunc("foo").As(func(a int) int { return 0 }) }, cbType: reflect.TypeOf(foo),
+		{name: "foo", fn: foo, handle: func(b *mocker.Builder) mocker.ExportedMocker {
+			return b.ExportFunc("foo").As(func(a int) int { return 0 })
+		}, cbType: reflect.TypeOf(foo),
 			state: func() string { return fp(func() interface{} { return foo(1) }) }, prepare: func(b *mocker.Builder) { b.ExportFunc("foo").As(func(a int) int { return 0 }).Return(55) }},
 		{name: "I.Get", isIface: true, handle: func(b *mocker.Builder) mocker.ExportedMocker {
 			return b.Interface(&iv).Method("Get").As(zeroFn(ifaceCb))
@@ -368,7 +370,9 @@ func TestC13(t *testing.T) {
 		{"unknown-method", "Interface(&iv).Method(Nope)", func(b *mocker.Builder) { b.Interface(&iv).Method("Nope") }},
 		{"unknown-symbol", "ExportFunc(nope).Apply", func(b *mocker.Builder) { b.ExportFunc("nope").Apply(func() {}) }},
 		{"unknown-symbol", "ExportFunc(nope).As", func(b *mocker.Builder) { b.ExportFunc("nope").As(func() {}).Return() }},
-		{"unknown-symbol", "Pkg(x).ExportFunc(foo).As", func(b *mocker.Builder) { b.Pkg("no/such/pkg").ExportFunc("foo").As(func(a int) int { return 0 }).Return(1) }},
+		{"unknown-symbol", "Pkg(x).ExportFunc(foo).As", func(b *mocker.Builder) {
+			b.Pkg("no/such/pkg").ExportFunc("foo").As(func(a int) int { return 0 }).Return(1)
+		}},
 		{"unknown-symbol", "ExportStruct(nope).Method(m).Apply", func(b *mocker.Builder) { b.ExportStruct("nope").Method("m").Apply(func() {}) }},
 		{"unknown-symbol", "UnExportedVar(nope)", func(b *mocker.Builder) { b.UnExportedVar("no/such/pkg.v").Set(1) }},
 		{"interface-not-pointer", "Interface(iv value)", func(b *mocker.Builder) {
